@@ -5,6 +5,9 @@ PROVED (Properties/C19.v over Data/Persist.v, Data/PersistProofs.v, Data/Persist
     per job, every max_ops >= total; the inputs the writer / reader refuse; same for the documented JSSP format and
     jssp.parser.read (word-level model: a file is a list of lines of words); below it, Data/PersistText.v proves that
     str.split undoes the writer's joins and int(str(z)) = z (character level).
+  * directories: get_n_ops_of_instance = number of operations of the file, the file generators return every instance
+    padded to the largest count of the directory (any listing order), the writer's file name carries the index
+    (distinct names); rl4co.data.utils.check_extension appends the extension exactly when it is missing.
   * dataset files: load_npz_to_tensordict / save_tensordict_to_npz bookkeeping (keys, order, batch size) GIVEN that the
     npz byte format round-trips (hypothesis), CVRPEnv.load_data and MTVRPEnv.load_data arithmetic over any ordered
     field: generate_vrp_data -> np.savez -> load_data gives demand / capacity, in [0,1] when 0 <= demand <= capacity,
@@ -39,6 +42,32 @@ BIG = 16777215       # 2^24 - 1: largest odd integer a float32 holds exactly
 BADZ = -999983
 
 _T = {}
+
+
+class RealTimeout(BaseException):
+    """a call into rl4co did not return within the wall-clock limit (BaseException: the `except Exception` blocks that
+    record 'the code raised' as an observable must not swallow it)"""
+
+    def __init__(self, what, secs):
+        BaseException.__init__(self, "%s did not return within %.0f s" % (what, secs))
+        self.what, self.secs = what, secs
+
+
+def real(what, fn, *a, **k):
+    """every call into the real rl4co code goes through here: vt/sched_guard.py (SIGALRM in the main thread)"""
+    from vt import sched_guard
+    try:
+        return sched_guard.call("rl4co", what, fn, *a, **k)
+    except sched_guard.EnvTimeout as e:
+        raise RealTimeout(what, e.secs)
+
+
+def nonterminating(spec_fail, e, replay):
+    spec_fail.append(("%s: call into rl4co does not terminate" % e.what, dict(replay, limit_s=e.secs,
+                      what="the call did not return within the wall-clock limit of the harness; the input is recorded")))
+
+
+MAX_NUMEL = 20000      # a parsed instance larger than this is not converted (the shape alone is reported)
 
 
 def T():
@@ -267,10 +296,34 @@ def g_of_td_row(td, b):
 
 def obs_of_read(ret):
     td, nj, nm, mopj = ret
+    shape = [int(x) for x in td["proc_times"].shape]
+    if td["proc_times"].numel() > MAX_NUMEL or td["pad_mask"].numel() > MAX_NUMEL:
+        # never convert a huge tensor element by element (a wrong machine count can make it millions of rows)
+        return {"start": [], "end": [], "pt": [], "pad": [], "nj": int(nj), "nm": int(nm), "mopj": int(mopj),
+                "oversize_proc_times_shape": shape, "dtypes": {k: str(v.dtype) for k, v in td.items()}, "shape": shape}
     g = g_of_td_row(td, 0)
     return {"start": g["start"], "end": g["end"], "pt": g["pt"], "pad": g["pad"],
-            "nj": int(nj), "nm": int(nm), "mopj": int(mopj),
+            "nj": int(nj), "nm": int(nm), "mopj": int(mopj), "shape": shape,
             "dtypes": {k: str(v.dtype) for k, v in td.items()}}
+
+
+def header_spec(text, o):
+    """the part of the property every reader result must satisfy, whatever the file: num_jobs / num_machines are the
+    first two numbers of the first non-blank line and proc_times has num_machines rows.  None = fine."""
+    if o is None:
+        return None
+    ws = tokenize(text)
+    if not ws or len(ws[0]) < 2:
+        return None
+    h = [classify(w) for w in ws[0][:2]]
+    if any(t[0] == "B" for t in h):
+        return None
+    nj, nm = h[0][1], h[1][1]
+    if o["nj"] != nj or o["nm"] != nm:
+        return "read returns (num_jobs, num_machines) = (%s, %s), the header says (%s, %s)" % (o["nj"], o["nm"], nj, nm)
+    if nm >= 0 and o["shape"][1] != nm:
+        return "proc_times has shape %s, the header says %s machines" % (o["shape"], nm)
+    return None
 
 
 def flex_tie(g):
@@ -302,13 +355,13 @@ def run_fjsp_case(g, mos, d):
     res = {"file": None, "text": None, "reads": {}, "err": None, "stage": None}
     shutil.rmtree(d, ignore_errors=True)
     try:
-        tdr = fjsp_env().reset(td_of_g(g))
+        tdr = real("FJSPEnv.reset", fjsp_env().reset, td_of_g(g))
     except Exception as e:  # noqa: BLE001
         res["err"] = "%s: %s" % (type(e).__name__, str(e)[:120])
         res["stage"] = "reset"
         return res
     try:
-        FP.write(str(d), tdr)
+        real("fjsp.parser.write", FP.write, str(d), tdr)
     except Exception as e:  # noqa: BLE001 -- the writer refusing is an observable
         res["err"] = "%s: %s" % (type(e).__name__, str(e)[:120])
         res["stage"] = "write"
@@ -320,7 +373,7 @@ def run_fjsp_case(g, mos, d):
     res["name"] = files[0]
     for mo in mos:
         try:
-            res["reads"][mo] = obs_of_read(FP.read(path, max_ops=mo))
+            res["reads"][mo] = obs_of_read(real("fjsp.parser.read", FP.read, path, max_ops=mo))
         except Exception as e:  # noqa: BLE001
             res["reads"][mo] = None
             res.setdefault("read_err", {})[str(mo)] = "%s: %s" % (type(e).__name__, str(e)[:100])
@@ -419,7 +472,11 @@ def unit_fjsp(ctx, spec_fail):
         mos = [None, W]
         mos.append(rng.choice([total, total + 2, max(total - 1, 0), 0, W + 5, 1]))
         mos = list(dict.fromkeys(mos))
-        res = run_fjsp_case(g, mos, WORK / "run" / "fjsp")
+        try:
+            res = run_fjsp_case(g, mos, WORK / "run" / "fjsp")
+        except RealTimeout as e:
+            nonterminating(spec_fail, e, {"unit": "fjsp write/read", "instance": g, "max_ops_tried": mos})
+            continue
         if res["stage"] == "reset":
             n_reset_rej += 1
             ctx.count("fjsp_reset_refused_instance")
@@ -446,6 +503,10 @@ def unit_fjsp(ctx, spec_fail):
             ctx.seen({"fjsp": g, "mo": mo}, nontrivial=len(g["start"]) >= 2 or total >= 2)
             ctx.count("fjsp_read_max_ops_" + ("none" if mo is None else "eq_width" if mo == W else "lt_total" if mo < total else "ge_total"))
             # ---- the property on the implementation's own output (python, independent of Coq)
+            hs = header_spec(res["text"], o)
+            if hs:
+                spec_fail.append(("fjsp/text: read does not take num_jobs / num_machines from the header", {
+                    "unit": "fjsp read (header)", "file_text": res["text"], "max_ops": mo, "difference": hs}))
             if wf:
                 if mo is None or mo >= total:
                     Wexp = total if mo is None else mo
@@ -478,6 +539,9 @@ CODE_TEXT = {9: "outside the modelled domain", 11: "model: writer raises, code w
              45: "num_jobs differs", 46: "num_machines differs", 47: "max_ops_per_job differs",
              50: "theorem right-hand side differs from the code's result", 61: "loader: raise mismatch",
              71: "character layer: lex + int() of the text differ from what file2lines returned",
+             81: "get_n_ops_of_instance: raise mismatch", 82: "operation count differs", 83: "file generator: raise mismatch",
+             84: "file generator: number of instances differs", 85: "file generator: an instance differs (start/end/proc_times/pad_mask)",
+             86: "file name of a written instance differs", 87: "check_extension differs (or raised)",
              62: "batch size differs", 63: "keys / key order differ", 64: "rank or shape of a value differs", 65: "a value differs"}
 
 
@@ -628,11 +692,19 @@ def unit_readers(ctx, spec_fail):
             fh.write(text)
         total = sum(nops)
         mo = rng.choice([None, None, total, total + 3, total - 1, 0, -1, total + 1])
+        pname = "fjsp" if kind == 0 else "jssp"
         try:
-            o = obs_of_read((FP if kind == 0 else JP).read(path, max_ops=mo))
+            o = obs_of_read(real(pname + ".parser.read", (FP if kind == 0 else JP).read, path, max_ops=mo))
             err = None
         except Exception as e:  # noqa: BLE001
             o, err = None, "%s: %s" % (type(e).__name__, str(e)[:100])
+        except RealTimeout as e:
+            nonterminating(spec_fail, e, {"unit": pname + " read (header)", "file_text": text, "max_ops": mo})
+            continue
+        hs = header_spec(text, o)
+        if hs:
+            spec_fail.append(("%s/text: read does not take num_jobs / num_machines from the header" % pname, {
+                "unit": pname + " read (header)", "file_text": text, "max_ops": mo, "difference": hs}))
         toks = toks_of_text(text)
         cases.append("(RC %s %s %s %s)" % (nat(kind), opt(None if mo is None else z(mo)), c_file(toks),
                                            opt(None if o is None else c_rinst(o))))
@@ -697,9 +769,16 @@ def unit_jssp(ctx, spec_fail):
         one = all(sum(1 for m in range(len(g["pt"])) if g["pt"][m][o] != 0) == 1 for o in range(total))
         for mo in list(dict.fromkeys([None, W, rng.choice([total, total + 4, total - 1])])):
             try:
-                o, err = obs_of_read(JP.read(path, max_ops=mo)), None
+                o, err = obs_of_read(real("jssp.parser.read", JP.read, path, max_ops=mo)), None
             except Exception as e:  # noqa: BLE001
                 o, err = None, "%s: %s" % (type(e).__name__, str(e)[:100])
+            except RealTimeout as e:
+                nonterminating(spec_fail, e, {"unit": "jssp read (header)", "file_text": text, "max_ops": mo})
+                continue
+            hs = header_spec(text, o)
+            if hs:
+                spec_fail.append(("jssp/text: read does not take num_jobs / num_machines from the header", {
+                    "unit": "jssp read (header)", "file_text": text, "max_ops": mo, "difference": hs}))
             cases.append("(JC %s %s %s %s)" % (c_ginst(g), opt(None if mo is None else z(mo)), c_file(toks_of_text(text)),
                                                opt(None if o is None else c_rinst(o))))
             meta.append((kind, g, mo, text, strip_obs(o), err))
@@ -738,7 +817,11 @@ def unit_text(ctx, spec_fail):
         nops = [rng.randint(1, 3) for _ in range(nj)]
         g = make_g(rng, nops, nm, sum(nops) + rng.choice([0, 2]), rng.choice(["rand", "single", "all"]), rng.choice(["mixed", "big", "one"]))
         if i % 2 == 0:
-            res = run_fjsp_case(g, [], d / "w")
+            try:
+                res = run_fjsp_case(g, [], d / "w")
+            except RealTimeout as e:
+                nonterminating(spec_fail, e, {"unit": "fjsp write/read", "instance": g})
+                continue
             text = res["text"]
             if text is None:
                 continue
@@ -750,12 +833,16 @@ def unit_text(ctx, spec_fail):
         path = os.path.join(d, "t%04d.txt" % i)
         with open(path, "w", newline="") as fh:
             fh.write(text)
-        real = FP.file2lines(path)
-        ws = tokenize(text)
-        if [len(x) for x in real] != [len(x) for x in ws]:
-            spec_fail.append(("text: file2lines does not return one number per word of each non-blank line", {"unit": "file2lines", "file_text": text, "returned": real}))
+        try:
+            got = real("fjsp.parser.file2lines", FP.file2lines, path)
+        except RealTimeout as e:
+            nonterminating(spec_fail, e, {"unit": "file2lines", "file_text": text})
             continue
-        exp = [[(v if PLAIN_INT.fullmatch(w) else None) for w, v in zip(lw, lv)] for lw, lv in zip(ws, real)]
+        ws = tokenize(text)
+        if [len(x) for x in got] != [len(x) for x in ws]:
+            spec_fail.append(("text: file2lines does not return one number per word of each non-blank line", {"unit": "file2lines", "file_text": text, "returned": got}))
+            continue
+        exp = [[(v if PLAIN_INT.fullmatch(w) else None) for w, v in zip(lw, lv)] for lw, lv in zip(ws, got)]
         cases.append("(%s, %s)" % ("[" + "; ".join(nat(ord(c)) for c in text) + "]",
                                    "[" + "; ".join("[" + "; ".join("None" if v is None else "(Some %s)" % z(v) for v in line) + "]" for line in exp) + "]"))
         meta.append((text, exp))
@@ -764,6 +851,273 @@ def unit_text(ctx, spec_fail):
     codes = eval_cases(ctx, "text", "list nat * list (list (option Z))", "check_text", cases, shard=30)
     summarize(ctx, "character layer: str.split / int() vs PersistText.lex / Z_of_str", codes, meta,
               lambda m: {"file_text": m[0], "file2lines_returned": m[1]})
+    return codes
+
+
+# ------------------------------------------------------------------------------------------------ unit 3c: directories of files
+NAME_RE = re.compile(r"(\d{4,})_(\d+)j_(\d+)m\.txt")
+
+
+def batch_td(gs):
+    t = T()
+    torch = t["torch"]
+    return t["TensorDict"]({
+        "start_op_per_job": torch.tensor([g["start"] for g in gs], dtype=torch.int64),
+        "end_op_per_job": torch.tensor([g["end"] for g in gs], dtype=torch.int64),
+        "proc_times": torch.tensor([g["pt"] for g in gs], dtype=torch.float32),
+        "pad_mask": torch.tensor([g["pad"] for g in gs], dtype=torch.bool),
+    }, batch_size=[len(gs)])
+
+
+def row_obs(td, b):
+    g = g_of_td_row(td, b)
+    return {"start": g["start"], "end": g["end"], "pt": g["pt"], "pad": g["pad"], "nj": 0, "nm": 0, "mopj": 0}
+
+
+def unit_dirs(ctx, spec_fail):
+    """get_n_ops_of_instance / get_max_ops_from_files / the file generators on whole directories, and the file names write()
+    gives: model (Persist.n_ops_of, file_generator, PersistText.file_name) evaluated in Coq against the real functions"""
+    t = T()
+    torch = t["torch"]
+    rng, quick = ctx.rng, ctx.tier == "quick"
+    FP, JP = t["FP"], t["JP"]
+    from rl4co.envs.scheduling.fjsp.generator import FJSPFileGenerator
+    from rl4co.envs.scheduling.jssp.generator import JSSPFileGenerator
+    base = WORK / "run" / "dirs"
+    shutil.rmtree(base, ignore_errors=True)
+    os.makedirs(base)
+    ncases, nmeta, gcases, gmeta, namecases, namemeta = [], [], [], [], [], []
+    reps = [(0, 2), (0, 5), (0, 12), (1, 2), (1, 4), (1, 11), (0, 1), (1, 1)] if quick else \
+           [(0, 2), (0, 5), (0, 12), (0, 25), (1, 2), (1, 4), (1, 11), (1, 30), (0, 1), (1, 1), (0, 3), (1, 3), (0, 7), (1, 7)]
+    for rep, (kind, B) in enumerate(reps):
+        pname = "fjsp" if kind == 0 else "jssp"
+        P = FP if kind == 0 else JP
+        nj, nm = rng.randint(1, 4), rng.randint(1, 4)
+        W = 5 * nj
+        gs = []
+        for b in range(B):
+            nops = [rng.randint(1, 4) for _ in range(nj)]
+            if b == 1:
+                nops = [1] * nj                      # unequal totals on purpose: the smaller instances get padded
+            if b == 0:
+                nops = [4] * nj
+            gs.append(make_g(rng, nops, nm, W, "single" if kind == 1 else rng.choice(["rand", "single", "all"])))
+        d = base / ("%s_%d" % (pname, rep))
+        os.makedirs(d)
+        info = {"unit": pname + " directory", "instances": gs, "parser": pname}
+        try:
+            # ---- write the directory
+            if kind == 0:
+                tdr = real("FJSPEnv.reset", fjsp_env().reset, batch_td(gs))
+                texts = real("fjsp.parser.write", FP.write, str(d), tdr)
+                names_now = sorted(os.listdir(d))
+                # file names: <4-digit 1-based index>_<jobs>j_<machines>m.txt, one per instance, sorting in index order
+                by_text = {}
+                for nme in names_now:
+                    by_text.setdefault(open(os.path.join(d, nme)).read(), []).append(nme)
+                bad = None
+                if len(names_now) != B:
+                    bad = "%d instances written, %d files in the directory: %s" % (B, len(names_now), names_now)
+                for i in range(B):
+                    if bad:
+                        break
+                    exp_name = "%04d_%dj_%dm.txt" % (i + 1, nj, nm)
+                    if names_now[i] != exp_name:
+                        bad = "the %d-th file name in sorted order is %r, expected %r (all: %s)" % (i + 1, names_now[i], exp_name, names_now)
+                    elif open(os.path.join(d, exp_name)).read() != texts[i]:
+                        bad = "file %r does not hold instance %d of the batch" % (exp_name, i)
+                for i in range(B):
+                    namecases.append("(%s, %s, %s, %s)" % (z(i), z(nj), z(nm), "[" + "; ".join(nat(ord(c)) for c in (names_now[i] if i < len(names_now) else "")) + "]"))
+                    namemeta.append((i, nj, nm, names_now))
+                    ctx.count("dirs_file_names")
+                if bad:
+                    spec_fail.append(("fjsp/files: file name of a written instance is not <4-digit 1-based index>_<jobs>j_<machines>m.txt", dict(
+                        info, difference=bad, file_names=names_now)))
+                    # keep going with whatever was written
+                paths = [os.path.join(d, nme) for nme in names_now]
+            else:
+                paths = []
+                for b, g in enumerate(gs):
+                    pth = os.path.join(d, "%04d_%dj_%dm.txt" % (b + 1, nj, nm))
+                    with open(pth, "w") as fh:
+                        fh.write(render(jssp_words(g)))
+                    paths.append(pth)
+            # ---- get_n_ops_of_instance on every file, get_max_ops_from_files on the directory
+            totals = {}
+            for pth in paths:
+                text = open(pth).read()
+                try:
+                    n, err = int(real(pname + ".parser.get_n_ops_of_instance", P.get_n_ops_of_instance, pth)), None
+                except Exception as e:  # noqa: BLE001
+                    n, err = None, "%s: %s" % (type(e).__name__, str(e)[:100])
+                ncases.append("(NC %s %s %s)" % (nat(kind), c_file(toks_of_text(text)), opt(None if n is None else z(n))))
+                nmeta.append((pname, text, n, err))
+                ctx.seen({"nops": text, "k": kind}, nontrivial=True)
+                ctx.count("dirs_n_ops_cases")
+                totals[pth] = n
+                # spec: the number of operations of the instance in that file
+                own = [g for g in gs if (render(jssp_words(g)) == text if kind == 1 else True)]
+                exp_n = sum(len(line) // 2 for line in tokenize(text)[1:]) if kind == 1 else None
+                if kind == 0:
+                    # operations of an FJSP file: first word of every job line
+                    exp_n = sum(int(line[0]) for line in tokenize(text)[1:])
+                if n != exp_n:
+                    spec_fail.append(("%s/files: get_n_ops_of_instance is not the number of operations in the file" % pname, {
+                        "unit": pname + " n_ops", "parser": pname, "file_text": text, "expected": exp_n, "observed": n, "error": err}))
+            exp_max = max(g_total(g) for g in gs)
+            try:
+                mx = int(real(pname + ".parser.get_max_ops_from_files", P.get_max_ops_from_files, paths))
+            except Exception as e:  # noqa: BLE001
+                mx = "%s: %s" % (type(e).__name__, str(e)[:100])
+            if mx != exp_max and len(paths) == B:
+                spec_fail.append(("%s/files: get_max_ops_from_files is not the largest operation count of the directory" % pname, dict(
+                    info, expected=exp_max, observed=mx)))
+            # ---- the file generator on the directory
+            Gen = FJSPFileGenerator if kind == 0 else JSSPFileGenerator
+            nmax = None if B > 1 else rng.choice([None, exp_max + 3])
+            try:
+                gen = real(Gen.__name__, lambda: Gen(str(d), n_ops_max=nmax))
+                files_order, back, gerr = list(gen.files), gen.td, None
+            except Exception as e:  # noqa: BLE001
+                files_order, back, gerr = sorted(paths), None, "%s: %s" % (type(e).__name__, str(e)[:140])
+            texts_in_order = [open(f).read() for f in files_order]
+            if back is not None and back["proc_times"].numel() > MAX_NUMEL:
+                spec_fail.append(("%s/files: file generator builds an instance tensor of shape %s" % (pname, list(back["proc_times"].shape)), dict(info)))
+                continue
+            obs_rows = None if back is None else [row_obs(back, b) for b in range(back.batch_size[0])]
+            gcases.append("(GC %s %s %s %s)" % (nat(kind), opt(None if nmax is None else z(nmax)),
+                                                 "[" + "; ".join(c_file(toks_of_text(x)) for x in texts_in_order) + "]",
+                                                 opt(None if obs_rows is None else "[" + "; ".join(c_rinst(r) for r in obs_rows) + "]")))
+            gmeta.append((pname, gs, nmax, texts_in_order, gerr))
+            ctx.seen({"dir": gs, "k": kind}, nontrivial=B >= 2)
+            ctx.count("dirs_file_generator_cases")
+            # spec on the implementation: the same instances as a multiset, each padded to the directory's width
+            Wexp = exp_max if B > 1 else (nmax or exp_max)
+            exp_rows = sorted(json_key({k: v for k, v in repad_py(g, Wexp).items() if k in ("start", "end", "pt", "pad")}) for g in gs)
+            got_rows = None if obs_rows is None else sorted(json_key({k: r[k] for k in ("start", "end", "pt", "pad")}) for r in obs_rows)
+            if got_rows != exp_rows:
+                spec_fail.append(("%s/files: the file generator does not return the written instances padded to the largest operation count" % pname, dict(
+                    info, n_ops_max=nmax, expected_width=Wexp, observed_shape=None if back is None else list(back["proc_times"].shape),
+                    observed_pad_masks=None if obs_rows is None else [r["pad"] for r in obs_rows], error=gerr)))
+            if rep == 1:
+                ctx.sample({"unit": "directory through " + Gen.__name__, "file_names": [os.path.basename(f) for f in files_order],
+                            "operation_counts": [totals.get(f) for f in files_order], "padded_width": None if back is None else int(back["proc_times"].shape[2])})
+        except RealTimeout as e:
+            nonterminating(spec_fail, e, info)
+    codes = eval_cases(ctx, "nops", "ncase", "check_nops", ncases, shard=40)
+    summarize(ctx, "get_n_ops_of_instance (fjsp / jssp parser)", codes, nmeta,
+              lambda m: {"parser": m[0], "file_text": m[1], "returned": m[2], "raised": m[3]})
+    codes = eval_cases(ctx, "filegen", "gcase", "check_filegen", gcases, shard=4)
+    summarize(ctx, "FJSPFileGenerator / JSSPFileGenerator on a directory", codes, gmeta,
+              lambda m: {"parser": m[0], "instances": m[1], "n_ops_max": m[2], "files_in_listing_order": m[3], "raised": m[4]})
+    codes = eval_cases(ctx, "names", "Z * Z * Z * list nat", "check_name", namecases, shard=40)
+    summarize(ctx, "file names given by fjsp.parser.write", codes, namemeta,
+              lambda m: {"index": m[0], "num_jobs": m[1], "num_machines": m[2], "sorted_file_names": m[3]})
+    return codes
+
+
+def json_key(o):
+    import json
+    return json.dumps(o, sort_keys=True)
+
+
+# ------------------------------------------------------------------------------------------------ unit 3d: check_extension
+def unit_ext(ctx, spec_fail):
+    """rl4co/data/utils.py check_extension (and the names save / load / generate_dataset end up using) against
+    PersistText.check_extension"""
+    import numpy as np
+    t = T()
+    torch = t["torch"]
+    from rl4co.data import utils as DU
+    from rl4co.data.generate_data import generate_dataset
+    rng = ctx.rng
+    names = ["tsp20", "tsp20.npz", "data/vrp/vrp20_test_seed1234", "data/vrp/vrp20_test_seed1234.npz", "data.v2/tsp20", "a.b.c",
+             "x.npz.bak", ".npz", "..npz", "dir/.hidden", "dir/.hidden.npz", "file.", "file.NPZ", "a/b.npz/c", "x.npz/", "", "noext/",
+             "archive.tar.npz", "weird name.npz", "..", "a..npz"]
+    for _ in range(12 if ctx.tier == "quick" else 60):
+        names.append("".join(rng.choice("ab./.n") for _ in range(rng.randint(0, 7))) + rng.choice(["", ".npz", ".np", "npz", ".npz.", ".txt"]))
+    cases, meta = [], []
+    for name in names:
+        for ext in (".npz", ".txt", ".pkl"):
+            try:
+                out, err = real("data.utils.check_extension", DU.check_extension, name, ext) if ext != ".npz" else \
+                    real("data.utils.check_extension", DU.check_extension, name), None
+            except Exception as e:  # noqa: BLE001
+                out, err = None, "%s: %s" % (type(e).__name__, str(e)[:100])
+            except RealTimeout as e:
+                nonterminating(spec_fail, e, {"unit": "check_extension", "name": name, "ext": ext})
+                continue
+            cases.append("(%s, %s, %s)" % ("[" + "; ".join(nat(ord(c)) for c in name) + "]", "[" + "; ".join(nat(ord(c)) for c in ext) + "]",
+                                           opt(None if out is None else "[" + "; ".join(nat(ord(c)) for c in out) + "]")))
+            meta.append((name, ext, out, err))
+            ctx.seen({"ext": name, "e": ext}, nontrivial=True)
+            ctx.count("check_extension_cases")
+            # the property on the implementation: the result is the name itself or the name + ext, ends with ext, is stable
+            ok = out is not None and out in (name, name + ext) and out.endswith(ext) and \
+                (out == name) == (os.path.splitext(name)[1] == ext)
+            if ok:
+                try:
+                    ok = DU.check_extension(out, ext) == out or os.path.splitext(out)[1] != ext
+                except Exception:  # noqa: BLE001
+                    ok = False
+            if not ok:
+                spec_fail.append(("data/utils: check_extension does not return the name with the extension appended exactly when it is missing", {
+                    "unit": "check_extension", "name": name, "ext": ext, "observed": out, "error": err,
+                    "expected": name if os.path.splitext(name)[1] == ext else name + ext}))
+    codes = eval_cases(ctx, "ext", "list nat * list nat * option (list nat)", "check_ext", cases, shard=60)
+    summarize(ctx, "rl4co.data.utils.check_extension", codes, meta, lambda m: {"name": m[0], "ext": m[1], "returned": m[2], "raised": m[3]})
+    # names without the extension through the functions that take user-supplied names (differential, on the real files)
+    d = WORK / "run" / "ext"
+    shutil.rmtree(d, ignore_errors=True)
+    os.makedirs(d)
+    n = fails = 0
+    for stem in ("plain", "with.dot", "already.npz"):
+        n += 1
+        target = str(d / stem)
+        try:
+            real("generate_dataset", generate_dataset, filename=target, problem="tsp", dataset_size=2, graph_sizes=[5], seed=7, overwrite=True)
+            want = target if target.endswith(".npz") else target + ".npz"
+            ok = os.path.isfile(want) and tuple(DU.load_npz_to_tensordict(want)["locs"].shape) == (2, 5, 2)
+            err = None if ok else "expected file %s; directory holds %s" % (want, sorted(os.listdir(d)))
+        except Exception as e:  # noqa: BLE001
+            ok, err = False, "%s: %s" % (type(e).__name__, str(e)[:160])
+        except RealTimeout as e:
+            nonterminating(spec_fail, e, {"unit": "generate_dataset", "filename": target})
+            continue
+        if not ok:
+            fails += 1
+            spec_fail.append(("data/generate_data: generate_dataset(filename without / with .npz) does not produce a loadable <name>.npz", {
+                "unit": "generate_dataset filename", "filename_stem": stem, "error": err}))
+    # save_tensordict_to_npz / load_npz_to_tensordict with and without the extension
+    td = t["TensorDict"]({"locs": torch.arange(12, dtype=torch.float32).reshape(2, 3, 2) / 16}, batch_size=[2])
+    asym = None
+    for stem in ("s_plain", "s_ext.npz"):
+        n += 1
+        target = str(d / stem)
+        try:
+            real("save_tensordict_to_npz", DU.save_tensordict_to_npz, td, target)
+            back = real("load_npz_to_tensordict", DU.load_npz_to_tensordict, DU.check_extension(target))
+            ok = torch.equal(back["locs"], td["locs"])
+            err = None
+        except Exception as e:  # noqa: BLE001
+            ok, err = False, "%s: %s" % (type(e).__name__, str(e)[:160])
+        except RealTimeout as e:
+            nonterminating(spec_fail, e, {"unit": "save/load npz name", "name": stem})
+            continue
+        if not ok:
+            fails += 1
+            spec_fail.append(("npz: save_tensordict_to_npz(name) -> load_npz_to_tensordict(check_extension(name)) fails", {
+                "unit": "save/load npz name", "name": stem, "error": err}))
+        if not stem.endswith(".npz"):
+            try:
+                DU.load_npz_to_tensordict(target)
+                asym = False
+            except Exception:  # noqa: BLE001
+                asym = True
+    ctx.units["TEST names with and without .npz through generate_dataset / save_tensordict_to_npz / load_npz_to_tensordict"] = {
+        "kind": "differential-test", "cases": n, "failures": fails,
+        "observation": "numpy appends .npz on save; load_npz_to_tensordict(name without .npz) %s (callers are expected to go through check_extension)" % (
+            "raises FileNotFoundError" if asym else "works")}
     return codes
 
 
@@ -834,9 +1188,12 @@ def unit_loaders(ctx, spec_fail):
 
     def run(fn):
         try:
-            return obs_of_td(fn()), None
+            return obs_of_td(real("dataset loader", fn)), None
         except Exception as e:  # noqa: BLE001
             return None, "%s: %s" % (type(e).__name__, str(e)[:120])
+        except RealTimeout as e:
+            nonterminating(spec_fail, e, {"unit": "dataset loader", "files_dir": str(d)})
+            return None, "timeout"
 
     # ---- (a) generate_dataset("vrp") -> file -> CVRPEnv.load_data  (the real generation path, float32 division)
     k = 0
@@ -1050,6 +1407,9 @@ def run(ctx: Ctx, proofs_ok: bool):
                 "additionally on 28 kinds of file mutation; loaders on generate_dataset('vrp') files, exact dyadic files with broadcast / "
                 "missing-key / order variants, CVRP- and MTVRP-generator TensorDicts.  non-trivial = at least 2 jobs or 2 operations "
                 "(codec), at least 2 lines (readers), any loader case; distinct by hash of (instance, max_ops) / file text / arrays.  "
+                "directories of 1..12 (thorough 30) files with unequal operation counts through get_n_ops_of_instance / "
+                "get_max_ops_from_files / the file generators, file names of write(); check_extension on ~100 names.  Every call into rl4co runs "
+                "under the wall-clock guard vt/sched_guard.py; parsed tensors above 20000 elements are never converted element-wise.  "
                 "TESTED PART (not proof): see coverage.units entries with kind = differential-test")
     ctx.assumptions += [
         "text codec modelled at word level (Data/Persist.v); the character layer (join / split / blank-line filter, str(int) / int()) is proved "
@@ -1066,7 +1426,7 @@ def run(ctx: Ctx, proofs_ok: bool):
     ctx.trusted.append("numpy npz format, pickle, copy.deepcopy, torch.save/torch.load, Lightning checkpoint format (library behaviour; tested, not modelled)")
     spec_fail = []
     codes_all = []
-    for fn in (unit_fjsp, unit_readers, unit_jssp, unit_text, unit_loaders):
+    for fn in (unit_fjsp, unit_readers, unit_jssp, unit_text, unit_dirs, unit_ext, unit_loaders):
         t1 = time.time()
         c = fn(ctx, spec_fail)
         codes_all.append(c)
@@ -1096,6 +1456,8 @@ def run(ctx: Ctx, proofs_ok: bool):
             continue
         ctx.failure(sig, obj, tag=re.sub(r"[^a-z0-9]+", "-", sig.split(":")[0].lower()).strip("-"))
     ctx.extra["wall_s_total_run"] = round(time.time() - t0, 1)
+    from vt import sched_guard
+    ctx.extra["wall_clock_guard"] = sched_guard.evidence()
     shutil.rmtree(WORK / "run", ignore_errors=True)
 
 
@@ -1133,6 +1495,83 @@ def replay(obj):
         now = strip_obs(res["reads"].get(mo)) if res["file"] is not None else None
         print("observed now:", json.dumps(now), res.get("err"), res.get("read_err"))
         print("property on the current tree:", "HOLDS on this case" if now == obj.get("expected") else "FAILS")
+        return 0
+    if unit.endswith(" n_ops") and "file_text" in obj:
+        p = WORK / "replay" / "n.txt"
+        p.write_text(obj["file_text"])
+        P = T()["FP"] if obj.get("parser") == "fjsp" else T()["JP"]
+        print("file     :\n" + obj["file_text"])
+        try:
+            now = int(real("get_n_ops_of_instance", P.get_n_ops_of_instance, str(p)))
+        except Exception as e:  # noqa: BLE001
+            now = "raised %s: %s" % (type(e).__name__, e)
+        print("operations in the file:", obj.get("expected"), " recorded:", obj.get("observed"), " get_n_ops_of_instance now:", now)
+        print("property on the current tree:", "HOLDS on this case" if now == obj.get("expected") else "FAILS")
+        return 0
+    if unit == "check_extension":
+        from rl4co.data.utils import check_extension
+        try:
+            now = check_extension(obj["name"], obj["ext"])
+        except Exception as e:  # noqa: BLE001
+            now = "raised %s: %s" % (type(e).__name__, e)
+        print("check_extension(%r, %r): expected %r, recorded %r (%s), now %r" % (obj["name"], obj["ext"], obj.get("expected"), obj.get("observed"), obj.get("error"), now))
+        print("property on the current tree:", "HOLDS on this case" if now == obj.get("expected") else "FAILS")
+        return 0
+    if unit.endswith(" directory") and "instances" in obj:
+        gs, pname = obj["instances"], obj["parser"]
+        d = WORK / "replay" / "dir"
+        shutil.rmtree(d, ignore_errors=True)
+        os.makedirs(d)
+        nj, nm = len(gs[0]["start"]), len(gs[0]["pt"])
+        P = T()["FP"] if pname == "fjsp" else T()["JP"]
+        if pname == "fjsp":
+            real("fjsp.parser.write", P.write, str(d), real("FJSPEnv.reset", fjsp_env().reset, batch_td(gs)))
+        else:
+            for b, g in enumerate(gs):
+                (d / ("%04d_%dj_%dm.txt" % (b + 1, nj, nm))).write_text(render(jssp_words(g)))
+        names = sorted(os.listdir(d))
+        exp_names = ["%04d_%dj_%dm.txt" % (i + 1, nj, nm) for i in range(len(gs))]
+        exp_max = max(g_total(g) for g in gs)
+        print("%d instances, operation counts %s" % (len(gs), [g_total(g) for g in gs]))
+        print("file names now:", names, "" if names == exp_names else " EXPECTED %s" % exp_names)
+        ok = names == exp_names
+        try:
+            ns = [int(P.get_n_ops_of_instance(str(d / nme))) for nme in names]
+            mx = int(P.get_max_ops_from_files([str(d / nme) for nme in names]))
+            print("get_n_ops_of_instance per file:", ns, " get_max_ops_from_files:", mx, " expected max:", exp_max)
+            ok = ok and mx == exp_max and sorted(ns) == sorted(g_total(g) for g in gs)
+            if pname == "fjsp":
+                from rl4co.envs.scheduling.fjsp.generator import FJSPFileGenerator as Gen
+            else:
+                from rl4co.envs.scheduling.jssp.generator import JSSPFileGenerator as Gen
+            back = real("file generator", lambda: Gen(str(d), n_ops_max=obj.get("n_ops_max"))).td
+            Wexp = exp_max if len(gs) > 1 else (obj.get("n_ops_max") or exp_max)
+            print("file generator: proc_times shape", list(back["proc_times"].shape), " expected width", Wexp)
+            rows = sorted(json_key({k: row_obs(back, b)[k] for k in ("start", "end", "pt", "pad")}) for b in range(back.batch_size[0]))
+            exp_rows = sorted(json_key({k: v for k, v in repad_py(g, Wexp).items() if k in ("start", "end", "pt", "pad")}) for g in gs)
+            ok = ok and rows == exp_rows
+        except Exception as e:  # noqa: BLE001
+            print("raised %s: %s" % (type(e).__name__, e))
+            ok = False
+        print("recorded :", obj.get("difference") or obj.get("error") or {k: obj.get(k) for k in ("expected", "observed", "expected_width", "observed_shape")})
+        print("property on the current tree:", "HOLDS on this case" if ok else "FAILS")
+        return 0
+    if unit.endswith("read (header)") and "file_text" in obj:
+        p = WORK / "replay" / "h.txt"
+        p.write_text(obj["file_text"])
+        P = T()["FP"] if unit.startswith("fjsp") else T()["JP"]
+        print("file     :\n" + obj["file_text"])
+        try:
+            o = obs_of_read(real("parser.read", P.read, str(p), max_ops=obj.get("max_ops")))
+            hs = header_spec(obj["file_text"], o)
+            print("read now : num_jobs %s num_machines %s proc_times shape %s" % (o["nj"], o["nm"], o["shape"]))
+        except RealTimeout as e:
+            hs = str(e)
+        except Exception as e:  # noqa: BLE001
+            hs = None
+            print("read now : raised %s: %s" % (type(e).__name__, e))
+        print("recorded :", obj.get("difference"))
+        print("property on the current tree:", "HOLDS on this case" if not hs else "FAILS: %s" % hs)
         return 0
     if unit.startswith("jssp") and "file_text" in obj:
         p = WORK / "replay" / "j.txt"
